@@ -190,6 +190,7 @@ class Collector:
         self.stats: Dict[str, float] = {}
         self.harness_errors: List[str] = []
         self.budget_exhausted = False
+        self.spill: Optional[str] = None
 
     def record(self, case: dict, res: CaseResult) -> None:
         self.cases += 1
@@ -220,6 +221,12 @@ class Collector:
             cur = self.fails.get(f.bucket)
             if cur is None:
                 self.fails[f.bucket] = dict(bucket=f.bucket, msg=f.msg, case=case, size=size, count=1)
+                if self.spill:  # survives a native crash of this shard later on
+                    try:
+                        with open(self.spill, "a") as fh:
+                            fh.write(jdump(self.fails[f.bucket]) + "\n")
+                    except OSError:
+                        pass
             else:
                 cur["count"] += 1
                 if size < cur["size"]:
@@ -328,6 +335,7 @@ def run_shard(check: Check, ctx: Ctx, only_parts: Optional[List[str]] = None) ->
     known = load_known()
     col = Collector(check, known)
     last_path = os.path.join(ctx.workdir or env.work_dir(check.id), f"shard{ctx.shard}.last")
+    col.spill = os.path.join(ctx.workdir or env.work_dir(check.id), f"shard{ctx.shard}.fails.jsonl")
 
     def note(case: dict) -> None:
         try:
@@ -548,6 +556,18 @@ def parent(check: Check, tier: str, args) -> int:
             except OSError:
                 pass
             harness.append(f"shard {k} exited with {rc}; last case: {last}\n{tail}")
+            sp = os.path.join(outdir, f"shard{k}.fails.jsonl")
+            if os.path.exists(sp):  # violations the shard had already recorded before it died
+                recs = []
+                with open(sp) as f:
+                    for line in f:
+                        try:
+                            recs.append(json.loads(line))
+                        except ValueError:
+                            pass
+                if recs:
+                    results.append(dict(evaluations=0, cases=0, nontrivial=[], nontrivial_extra=0, classes={}, samples=[], fails=recs,
+                                        excluded={}, stats={}, harness_errors=[], budget_exhausted=False))
             continue
         with open(out) as f:
             results.append(json.load(f))
